@@ -368,6 +368,23 @@ def loop_runs() -> Any:
                 loc = local_of(base, es[0]["offset"])
                 new = {"all": "*", "none": str((loc.minute + 30) % 60), "third": str((loc.minute + 3) % 60)}[d["retime"]] + " * * * *"
                 retime.append({"at_s": (MIN - base % MIN) / 10**6 + 90.0, "idx": 0, "cron": new, "id": es[0]["id"]})
+        if d["dst_local"] and not retime:
+            # the scheduler PROCESS lives in a DST zone and the run starts a minute or two before one of that zone's transitions
+            zone, k_, before = d["dst_local"]
+            tr_ = [t for t in transitions(zone) if t > clock.to_us(dtm.datetime(2020, 1, 1, tzinfo=clock.UTC))]
+            t_us = tr_[k_ % len(tr_)]
+            nb = (t_us - before * MIN) // MIN * MIN + base % MIN
+            # entries were built for `base`; move every "current minute" expression along with the new start
+            shift_min = (nb // MIN - base // MIN)
+            for s_ in sources:
+                for e in s_["entries"]:
+                    if "cron" in e and not e.get("malformed"):
+                        f0 = e["cron"].split()[0]
+                        if f0.isdigit():
+                            e["cron"] = " ".join([str((int(f0) + shift_min) % 60)] + e["cron"].split()[1:])
+                        elif "," in f0 and all(x.isdigit() for x in f0.split(",")):
+                            e["cron"] = " ".join([",".join(str((int(x) + shift_min) % 60) for x in f0.split(","))] + e["cron"].split()[1:])
+            return {"loop": True, "base_us": nb, "horizon_min": d["h"], "sources": sources, "latencies": d["kick_lat"], "kick_fail": [], "local_zone": zone}
         if retime:
             return {"loop": True, "base_us": base, "horizon_min": d["h"], "sources": sources, "latencies": d["kick_lat"], "kick_fail": [], "retime": retime}
         return {"loop": True, "base_us": base, "horizon_min": d["h"], "sources": sources, "latencies": d["kick_lat"], "kick_fail": []}
@@ -382,6 +399,7 @@ def loop_runs() -> Any:
         "label": st.sampled_from([False, True]),
         "shot_first": st.sampled_from([False, False, True]),
         "broken_first": st.sampled_from([None, None, None, "30 12 * *", "* */x * * *", "*/x * * * *", "61 * * * *"]),
+        "dst_local": st.one_of(st.none(), st.none(), st.none(), st.tuples(st.sampled_from(["Europe/Berlin", "America/New_York", "Australia/Lord_Howe"]), st.integers(0, 40), st.integers(0, 2))),
         "retime": st.sampled_from([None, None, "all", "none", "third"]),
         # how long the broker takes to accept a message: a send that is still in progress when the next matching minute arrives
         # does not make the schedule any less due
@@ -426,8 +444,14 @@ def run_loop_case(case: Dict[str, Any]) -> Outcome:
                              f"{[(i, cron_at(i, ev), ent[i]['offset']) for i in got]}, but the expressions matching that minute are {[(i, cron_at(i, ev), ent[i]['offset']) for i in want]}"
                              + (f" (entry {case['retime'][0]['id']} was re-timed in place to {case['retime'][0]['cron']!r} at +{case['retime'][0]['at_s']} s)" if case.get("retime") else ""))
             break
+    if not out.violations and all(float(s_.get("list_latency") or 0.0) < 5.0 for s_ in case["sources"]) and n_pass < case["horizon_min"]:
+        # sources that answer at once are looked at in every minute of the run; a minute without an evaluation is a minute in which no
+        # matching expression was found due
+        out.add("C13.a", f"only {n_pass} evaluation passes in a run of {case['horizon_min']} minutes (passes started at "
+                         f"{[clock.from_us(min(p[j]['t'] for p in polls)).time().isoformat() for j in range(n_pass)]} UTC, process zone {case.get('local_zone', 'Asia/Kathmandu')}): "
+                         f"schedules whose expression matched the minutes in between were not found due")
     out.nontrivial = crossed or any(s_["kind"] == "label" and len({repr(e.get("offset")) for e in s_["entries"]}) > 1 for s_ in case["sources"])
-    out.classes = ["loop"] + (["label_source_mixed_offsets"] if any(s_["kind"] == "label" and len({repr(e.get("offset")) for e in s_["entries"]}) > 1 for s_ in case["sources"]) else []) + (["listing_crossed_minute_boundary"] if crossed else []) + (["slow_source"] if any(s["list_latency"] for s in case["sources"]) else []) + (["label_entry_retimed_in_place"] if case.get("retime") else []) + (["unparsable_sibling_listed_first"] if any(e.get("malformed") for s_ in case["sources"] for e in s_["entries"]) else []) + (["one_shot_listed_before_crons_live_list"] if any(s_.get("live_list") for s_ in case["sources"]) else []) + (["send_outlasts_a_minute"] if max(case.get("latencies") or [0.0]) > 60 else [])
+    out.classes = ["loop"] + (["label_source_mixed_offsets"] if any(s_["kind"] == "label" and len({repr(e.get("offset")) for e in s_["entries"]}) > 1 for s_ in case["sources"]) else []) + (["listing_crossed_minute_boundary"] if crossed else []) + (["slow_source"] if any(s["list_latency"] for s in case["sources"]) else []) + (["label_entry_retimed_in_place"] if case.get("retime") else []) + (["process_zone_crosses_dst_transition"] if case.get("local_zone") else []) + (["unparsable_sibling_listed_first"] if any(e.get("malformed") for s_ in case["sources"] for e in s_["entries"]) else []) + (["one_shot_listed_before_crons_live_list"] if any(s_.get("live_list") for s_ in case["sources"]) else []) + (["send_outlasts_a_minute"] if max(case.get("latencies") or [0.0]) > 60 else [])
     out.trace = {"kicks": [[k["tag"], k["t"] - case["base_us"]] for k in res["kicks"]][:12]}
     return out
 
